@@ -199,7 +199,7 @@ func genNegScript(g G, devPct int) NegScript {
 	s.TLSReply = dev("tlsreply", 6)
 	s.Cert = []int{CertGood, CertGood, CertBoth, CertWrongHost, CertUntrusted, CertExpired, CertAbort, CertAltName}[g.N("cert", 8)]
 	s.Mechs = [][]string{{"PLAIN"}, {"PLAIN", "X-OAUTH2"}, {"SCRAM-SHA-1", "PLAIN"}, {"X-OAUTH2"}, {"SCRAM-SHA-1", "ANONYMOUS"}, {}, {"X-OAUTH2", "X-OAUTH2", "DIGEST-MD5", "PLAIN"}}[g.Weighted("mechs", 6, 3, 3, 1, 1, 1, 2)]
-	s.AuthReply = dev("authreply", 7)
+	s.AuthReply = dev("authreply", 8)
 	if s.AuthReply == AuthFailure {
 		s.AuthCond = []string{"not-authorized", "credentials-expired", "temporary-auth-failure", "account-disabled"}[g.N("authcond", 4)]
 	}
@@ -210,7 +210,7 @@ func genNegScript(g G, devPct int) NegScript {
 	if s.Resume == ResumeUnreadable {
 		s.ResumeAlt = g.N("resume-alt", len(ResumeUnreadableReplies))
 	}
-	s.Bind = dev("bind", 11)
+	s.Bind = dev("bind", 12)
 	s.SessionRep = dev("sessionrep", 7)
 	s.Enable = 0
 	if g.Pct("enable-dev", devPct) {
